@@ -274,3 +274,80 @@ def render_compare(graph_file, queries, res_json, res_text, model, workdir, k_of
             want = pool[0].decode('utf-8', 'replace')[:160] if pool else ''
             dis.append('text report is not the concatenation of the blocks of Engine/Render.v for query %r: remaining implementation text %r; an unused model block starts %r' % (q[:200], rest[:160].decode('utf-8', 'replace'), want))
     return stats, dis
+
+
+LISTING_TEMPLATE = ['/** doc', ' * two */', 'class K%d {', '  int f(int a) {', '    int x = a + 1;', '    helper(x,', '        2);', '    /* c1', '       c2 */',
+                    '    return x;', '  }', '  String s = "v";', '}', '']
+
+
+def listing_files():
+    """one small class under every line-ending convention (and separators that are NOT line ends for the scanner)"""
+    out = []
+    T = LISTING_TEMPLATE
+    convs = [('lf', lambda i: '\n'), ('crlf', lambda i: '\r\n'), ('mixed_cr', lambda i: '\r' if i % 3 == 1 else '\n'), ('mixed_crlf', lambda i: '\r\n' if i % 2 else '\n'),
+             ('lfcr', lambda i: '\n\r'), ('cr_in_body', lambda i: '\r' if i in (4, 5, 9) else '\n'), ('nel', lambda i: '\u0085' if i in (4, 9) else '\n'),
+             ('ls', lambda i: '\u2028' if i in (4, 9) else '\n'), ('ff', lambda i: '\x0c' if i in (4, 9) else '\n'), ('vt', lambda i: '\x0b\n' if i % 2 else '\n'),
+             ('cr_only', lambda i: '\r'), ('cr_at_end', lambda i: '\r\n' if i < 12 else '\r')]
+    for j, (name, sep) in enumerate(convs):
+        text = ''.join((l % j if '%d' in l else l) + (sep(i) if i < len(T) - 1 else '') for i, l in enumerate(T))
+        out.append(('listing/%s/K%d.java' % (name, j), text.encode('utf-8')))
+    return out
+
+
+_blk = re.compile(rb'\tFile: (.*?), Line: (\d+) \n\tResult: [^\n]*\n\n((?:\t\t[ \d]{4,} \| [^\n]*\n)*)\n')
+
+
+def text_listing(files, workdir, tag='listing'):
+    """C04 in text mode on the real report: every numbered line of every entity shown must be (part of) that line of
+    the file on disk; and the report must be Engine/Render.v's, byte for byte.
+    -> (stats, violations [dict(what, file, data, detail)], disagreements [str])"""
+    stats, viol = Counter(), []
+    work = '%s/%s' % (workdir, tag)
+    proj = work + '/proj'
+    qrun.write_project(proj, files)
+    rc, out, err = run([B + '/harness', 'init-dump', proj, work + '/graph.txt'], timeout=600, env=dict(ENV, HOME=work))
+    if rc != 0:
+        return stats, [], ['init-dump failed on the listing project: ' + err.decode(errors='replace')[-200:]]
+    tq = [('L_' + k, 'FROM %s AS x SELECT x.getName()' % k) for k in ('class_declaration', 'method_declaration', 'variable_declaration', 'method_invocation')]
+    res, _ = qrun.run_queries(proj, tq, work + '/qj')
+    rest, _ = qrun.run_queries(proj, tq, work + '/qt', mode='text')
+    model = run_model(work + '/graph.txt', tq, work)
+    rstats, dis = render_compare(work + '/graph.txt', tq, res, rest, model, work, lambda qid, m: len(m['from'].split(',')))
+    stats.update({'listing_' + k: v for k, v in rstats.items()})
+    ondisk = {}
+    for rel, data in files:
+        ondisk[os.path.join(proj, rel).encode('utf-8')] = data
+    for qid, _ in tq:
+        oc, payload = rest.get(qid, ('missing', ''))
+        if oc != 'ok':
+            dis.append('text-mode query %s did not answer: %s %s' % (qid, oc, payload[:100]))
+            continue
+        raw = payload.encode('utf-8')
+        pos = 0
+        for m in _blk.finditer(raw):
+            if m.start() != pos:
+                break
+            pos = m.end()
+            stats['listing_blocks'] += 1
+            fpath, line0 = m.group(1), int(m.group(2))
+            data = ondisk.get(fpath)
+            if data is None:
+                viol.append(dict(what='the text report names a file that was not scanned', file=fpath.decode('utf-8', 'replace'), data=b'', detail=''))
+                continue
+            flines = data.split(b'\n')
+            shown = [l for l in m.group(3).split(b'\n') if l]
+            for i, l in enumerate(shown):
+                num, _, txt = l[2:].partition(b' | ')
+                stats['listing_lines'] += 1
+                n = int(num.strip() or b'0')
+                okn = n == line0 + i
+                inner = 0 < i < len(shown) - 1
+                fl = flines[n - 1] if 0 < n <= len(flines) else None
+                okt = fl is not None and ((txt == fl) if inner else (txt in fl))
+                if not (okn and okt):
+                    viol.append(dict(what='text mode: the text printed next to a line number is not that line of the file', file=fpath.decode('utf-8', 'replace'), data=data,
+                                     detail='query %s; entity at line %d; shown line %d is numbered %d with text %r; line %d of the file is %r' % (dict(tq)[qid], line0, i, n, txt[:80], n, (fl or b'')[:80])))
+                    break
+        if pos != len(raw):
+            dis.append('text report of %s is not a sequence of location blocks from byte %d: %r' % (qid, pos, raw[pos:pos + 120]))
+    return stats, viol, dis
